@@ -59,6 +59,10 @@ def cases(tier, seed):
             for n, (i, j, k) in enumerate(itertools.combinations_with_replacement(range(len(cand)), 3)):
                 out.append({'prog': name, 'tps': [[list(cand[i]), KINDS[n % 4]], [list(cand[j]), KINDS[(n + 1) % 4]],
                                                   [list(cand[k]), 'snapshot']], 'limits': 'unlimited', 'mode': 'response'})
+    if tier != 'quick':
+        for name in progs.generated()[::4]:
+            for i, c in enumerate(candidates(name)):
+                out.append({'prog': name, 'tps': [[list(c), KINDS[i % 4]]], 'limits': 'unlimited', 'mode': 'response' if i % 2 else 'register'})
     return out
 
 
@@ -156,6 +160,8 @@ def conform(ctx, desc):
 
 
 def run_case(ctx, desc):
+    if desc.get('prog', '').startswith('g') and desc['prog'][1:].isdigit():
+        progs.generated()
     if desc.get('k') == 'conform':
         return conform(ctx, desc)
     name = desc['prog']
